@@ -20,6 +20,21 @@ ASSUMPTIONS = ["parameter names are distinct (a duplicate is rejected by Python'
 NAMES = ["a", "b", "c", "caller", "d"]
 KWNAMES = ["a", "b", "c", "caller", "z", "d"]
 CALLER_TOKEN = 424242
+TOKEN_TO_PY = {51: None, 50: 0}
+PY_TO_TOKEN = {None: 51, 0: 50}
+
+
+def e2e_token(v):
+    """falsy keyword values of the e2e layer as opaque tokens for the model"""
+    return 51 if v is None else 52 if v is False else 50 if (type(v) is int and v == 0) else v
+
+
+def e2e_text(tok):
+    return {51: "None", 52: "False", 50: "0"}.get(tok, str(tok))
+
+
+def jinja_lit(v):
+    return "none" if v is None else "false" if v is False else str(v)
 
 
 def canon(o):
@@ -40,7 +55,10 @@ def real_call(env, params, ck, cv, c, args, kw):
 
     m = Macro(env, func, "m", list(params), ck, cv, c, False)
     try:
-        m(*args, **dict(kw))
+        # the model's values are opaque tokens; two of them stand for the values an implementation is most tempted to
+        # confuse with "not passed": 51 is None and 50 is 0 (mapped back below)
+        # (not for the special `caller` keyword: `caller=None` is the engine's own spelling of "no caller", outside the statement)
+        m(*args, **{k: (TOKEN_TO_PY.get(v, v) if k != "caller" else v) for k, v in kw})
     except TypeError as e:
         msg = str(e)
         if "takes not more than" in msg:
@@ -58,8 +76,10 @@ def real_call(env, params, ck, cv, c, args, kw):
             out.append("missing")
         elif isinstance(x, Undefined):
             out.append("undefCaller")
+        elif x is None or (x == 0 and type(x) is int):
+            out.append(["val", PY_TO_TOKEN[x]])
         elif isinstance(x, dict):
-            out.append(["kwargs", [[k, v] for k, v in x.items()]])
+            out.append(["kwargs", [[k, PY_TO_TOKEN.get(v, v) if (v is None or (type(v) is int and v == 0)) else v] for k, v in x.items()]])
         elif isinstance(x, tuple):
             out.append(["varargs", list(x)])
         else:
@@ -178,7 +198,9 @@ def expected(params, defaults, ck, cv, c, spec):
                 v = d[1]
             elif d[0] == "prev":
                 pv = vals.get(params[i - 1])
-                v = (pv if isinstance(pv, int) else 0) + 100
+                if pv == 51:
+                    return None              # `none|default(0) + 100`: None is defined, the addition raises TypeError
+                v = (0 if pv in (50, 52) or not isinstance(pv, int) else pv) + 100
             elif d[0] == "self":
                 v = None                     # undefined
             else:
@@ -187,7 +209,7 @@ def expected(params, defaults, ck, cv, c, spec):
             v = a[1]
         vals[p] = v
         if p != "caller":
-            out.append("U" if v is None else str(v))
+            out.append("U" if v is None else e2e_text(v))
     rest = args[len(params):]
     s = ",".join(out)
     callerv = None
@@ -205,7 +227,7 @@ def expected(params, defaults, ck, cv, c, spec):
     if cv:
         s += ";V" + "+".join(str(x) for x in va)
     if ck:
-        s += ";K" + "".join(f"{k}={v if k != 'caller' else 'fn'}&" for k, v in sorted(kw))
+        s += ";K" + "".join(f"{k}={e2e_text(v) if k != 'caller' else 'fn'}&" for k, v in sorted(kw))
     if c:
         s += ";C" + ("X" if callerv != "undefCaller" and callerv[1] == CALLER_TOKEN else "nocaller")
     return s
@@ -240,12 +262,15 @@ def run_e2e(ctx, res, jinja2):
         # keyword names include Python keywords: the code generator passes those through a dict (`**{'class': …}`)
         kwn = rng.sample(["a", "b", "c", "d", "z", "y", "class", "for", "import"], rng.randrange(0, 4))
         kw = [(k2, 60 + i) for i, k2 in enumerate(kwn)]
+        if kw and rng.random() < 0.35:
+            j = rng.randrange(len(kw))
+            kw[j] = (kw[j][0], rng.choice([None, 0, False]))      # passed explicitly, yet None / falsy
         shape = rng.choice(["plain", "plain", "star", "callblock", "python", "python-async", "mixed", "mixed", "mixed-callblock"])
         jobs.append((params, defaults, ck, cv, c, args, kw, shape))
     reqs = []
     for params, defaults, ck, cv, c, args, kw, shape in jobs:
         kw2 = list(kw) + ([("caller", CALLER_TOKEN)] if shape in ("callblock", "mixed-callblock") else [])
-        reqs.append([Atom("macro"), params, ck, cv, c, args, [[k, v] for k, v in kw2]])
+        reqs.append([Atom("macro"), params, ck, cv, c, args, [[k, e2e_token(v)] for k, v in kw2]])
     replies = core.driver_batch(reqs)
     renders, distinct, samples = 0, set(), []
     for job, rep in zip(jobs, replies):
@@ -255,7 +280,7 @@ def run_e2e(ctx, res, jinja2):
         spec = canon(rep[1][1])
         exp = expected(params, defaults, ck, cv, c, spec)
         msrc = macro_source(params, defaults, ck, cv, c)
-        callargs = ", ".join([str(a) for a in args] + [f"{k}={v}" for k, v in kw])
+        callargs = ", ".join([str(a) for a in args] + [f"{k}={jinja_lit(v)}" for k, v in kw])
         if shape in ("plain",):
             src = msrc + "{{ m(%s) }}" % callargs
         elif shape == "star":
@@ -265,7 +290,7 @@ def run_e2e(ctx, res, jinja2):
         elif shape in ("mixed", "mixed-callblock"):
             # some positional arguments written out, the rest as *pos2; some keywords written out, the rest as **kwd2
             sp, sk = rng.randrange(0, len(args) + 1), rng.randrange(0, len(kw) + 1)
-            parts = [str(a) for a in args[:sp]] + [f"{k}={v}" for k, v in kw[:sk]]
+            parts = [str(a) for a in args[:sp]] + [f"{k}={jinja_lit(v)}" for k, v in kw[:sk]]
             if sp < len(args) or rng.random() < 0.5:
                 parts.append("*pos2")
             if sk < len(kw) or rng.random() < 0.5:
